@@ -2250,8 +2250,8 @@ vbi_decode_teletext(vbi_decoder *vbi, uint8_t *buffer)
 		while ((curr = vbi->vt.current)) {
 			vtp = curr->page;
 
-			if (vtp->flags & C11_MAGAZINE_SERIAL && !(vtp->flags & C4_ERASE_PAGE)) {
-				if (vtp->pgno == pgno)
+			if (vtp->flags & C11_MAGAZINE_SERIAL) {
+				if (vtp->pgno == pgno && !(vtp->flags & C4_ERASE_PAGE))
 					break;
 			} else {
 				curr = rvtp;
